@@ -21,15 +21,19 @@ EXTENDS Integers, Sequences, FiniteSets, TLC, Json
 
 CONSTANTS MaxCalls,      \* top-level calls per history
           Tops,          \* set of top-level calls [inst, fn, arg, script]
-          MaxDepth       \* nesting bound of host callbacks (scripts are finite anyway)
+          MaxDepth,      \* nesting bound of host callbacks (scripts are finite anyway)
+          Starts         \* set of starter instantiations [body, via, script] ({} = none)
 
 VARIABLES g,             \* [inst -> counter]
           closed,        \* [inst -> 0 | code + 1]
+          sreg,          \* 1 while an instance of the starter module S is registered under its name
           hist, fin
 
-vars == <<g, closed, hist, fin>>
+vars == <<g, closed, sreg, hist, fin>>
 
-Insts == {"M", "A"}
+(* S is instantiated and closed by the history (InstS / CloseS); its start function runs during instantiation.
+   g["S"] is unused; closed["S"] is the exit code of the S instance being instantiated. *)
+Insts == {"M", "A", "S"}
 Ok(v) == [k |-> "ok", v |-> v]
 Fail(k, v) == [k |-> k, v |-> v]
 IsOk(r) == r.k = "ok"
@@ -104,17 +108,58 @@ Entry(i, f, x, st, d) ==
   IF IsOk(out.r) /\ out.st.closed[i] # 0 THEN [r |-> Fail("exit", out.st.closed[i] - 1), st |-> out.st] ELSE out
 
 -----------------------------------------------------------------------------
-Init == g = [i \in Insts |-> 0] /\ closed = [i \in Insts |-> 0] /\ hist = <<>> /\ fin = FALSE
+Init == g = [i \in Insts |-> 0] /\ closed = [i \in Insts |-> 0] /\ sreg = 0 /\ hist = <<>> /\ fin = FALSE
 
 Call(t) ==
   /\ ~fin /\ Len(hist) < MaxCalls
   /\ LET out == Entry(t.inst, t.fn, t.arg, [St0 EXCEPT !.script = t.script], 0) IN
           /\ g' = out.st.g /\ closed' = out.st.closed
-          /\ hist' = Append(hist, [top |-> t, res |-> out.r, g |-> out.st.g, closed |-> out.st.closed, ev |-> out.st.ev])
+          /\ hist' = Append(hist, [top |-> t, res |-> out.r, g |-> out.st.g, closed |-> out.st.closed, sreg |-> sreg, ev |-> out.st.ev])
+  /\ UNCHANGED <<fin, sreg>>
+
+(* ---- start functions.  The starter module S imports main.mark, main.trap, peer.peer and host.h0; its start function is
+        mark(5) ; <body> ; mark(7)
+   with body one of: nothing, main.trap(0), host.h0 (scripted: return / panic / exit - the exit closes S, the caller of the
+   host function), peer.peer(2) (A reaches the host function: an exit there closes A).  The start function is either the
+   module's start section or the exported _start that InstantiateModule calls.  Whatever happens, the effects made before
+   the failure persist, an instantiation that fails leaves NO instance behind (nothing registered under the name, the name
+   free again), and M and A stay usable. *)
+StartBodies == {"plain", "trap", "host", "peer2"}
+StartOf(body, script, st0) ==
+  LET st1 == Bump([st0 EXCEPT !.closed["S"] = 0, !.script = script], "M", 5)
+      out == CASE body = "plain" -> [r |-> Ok(0), st |-> st1]
+               [] body = "trap"  -> Guest("M", "trap", 0, st1, 0, <<"start">>)
+               [] body = "host"  -> Host("S", 0, st1, 0, <<"start">>)
+               [] body = "peer2" -> Guest("A", "peer", 2, st1, 0, <<"start">>)
+  IN [r |-> out.r, st |-> IF IsOk(out.r) THEN Bump(out.st, "M", 7) ELSE out.st]
+
+InstS(k) ==     \* k = [body, via ("section" | "export"), script]
+  /\ ~fin /\ Len(hist) < MaxCalls
+  /\ LET top == [inst |-> "S", fn |-> "inst", arg |-> 0, script |-> k.script, body |-> k.body, via |-> k.via]
+         nolink == closed["A"] # 0 \/ closed["M"] # 0
+         \* the name is checked when the instance is REGISTERED: for a start section that is after the start function has run
+         \* (with all its effects); the exported _start only runs once the instance is registered
+         runs == ~nolink /\ (sreg = 0 \/ k.via = "section")
+         out == IF runs THEN StartOf(k.body, k.script, St0) ELSE [r |-> Ok(0), st |-> St0]
+         res == IF nolink THEN Fail("nolink", 0)          \* a module it imports from is closed (and gone): refused before anything runs
+                ELSE IF sreg = 1 THEN (IF IsOk(out.r) THEN Fail("dup", 0) ELSE out.r)
+                \* an exit with code 0 from the exported _start is "success": no error, but the instance is closed all the same
+                ELSE IF out.r.k = "exit" /\ out.r.v = 0 /\ k.via = "export" THEN Ok(0) ELSE out.r
+         stays == sreg = 1 \/ (~nolink /\ IsOk(out.r) /\ out.st.closed["S"] = 0) IN
+     /\ g' = out.st.g /\ closed' = [out.st.closed EXCEPT !["S"] = 0]
+     /\ sreg' = IF stays THEN 1 ELSE 0
+     /\ hist' = Append(hist, [top |-> top, res |-> res, g |-> out.st.g, closed |-> closed', sreg |-> sreg', ev |-> <<>>])
   /\ UNCHANGED fin
 
-Finish == ~fin /\ Len(hist) > 0 /\ fin' = TRUE /\ UNCHANGED <<g, closed, hist>>
-Next == (\E t \in Tops : Call(t)) \/ Finish
+CloseS ==
+  /\ ~fin /\ Len(hist) < MaxCalls /\ sreg = 1
+  /\ sreg' = 0
+  /\ hist' = Append(hist, [top |-> [inst |-> "S", fn |-> "close", arg |-> 0, script |-> <<>>, body |-> "", via |-> ""],
+                           res |-> Ok(0), g |-> g, closed |-> closed, sreg |-> 0, ev |-> <<>>])
+  /\ UNCHANGED <<g, closed, fin>>
+
+Finish == ~fin /\ Len(hist) > 0 /\ fin' = TRUE /\ UNCHANGED <<g, closed, sreg, hist>>
+Next == (\E t \in Tops : Call(t)) \/ (\E k \in Starts : InstS(k)) \/ (Starts # {} /\ CloseS) \/ Finish
 Spec == Init /\ [][Next]_vars
 
 -----------------------------------------------------------------------------
@@ -132,5 +177,8 @@ ClosedSticky == [][\A i \in Insts : closed[i] # 0 => closed'[i] = closed[i]]_var
 EffectsPersist == [][\A i \in Insts : g'[i] >= g[i]]_vars
 
 Emit == fin => PrintT(<<"EMIT", ToJson([hist |-> hist])>>)
-DesignView == <<g, closed, Len(hist), fin>>
+DesignView == <<g, closed, sreg, Len(hist), fin>>
+(* an instantiation that fails leaves no instance behind: what is registered under the name is what was there before *)
+NoHalfInstance == \A k \in 1..Len(hist) : (hist[k].top.fn = "inst" /\ hist[k].res.k # "ok") =>
+                                              hist[k].sreg = (IF k = 1 THEN 0 ELSE hist[k - 1].sreg) \/ (hist[k].res.k = "exit" /\ hist[k].res.v = 0)
 =============================================================================
